@@ -2,7 +2,14 @@
 from . import common as C
 
 LEAN_MODULE = "Urandom.Props.C01"
-DISAGREEMENT_IS_FAILING_INPUT = True   # Model.run = Spec.run is proved: impl != model  ==>  impl != published algorithm
+
+
+def disagreement_is_failing(req, impl, model):
+    """Model.run = Spec.run is proved: an OUTPUT that differs from the model differs from the published algorithm. The state read back
+    through serde (`st:` token) is representation, not output: a difference there alone is only a broken correspondence."""
+    strip = lambda t: " ".join(x for x in t.split() if not x.startswith(("st:", "idx:")))
+    return strip(impl) != strip(model)
+
 RULE = ("requests: generator x (seed | injected 256-bit state) x constructor path (from_seed, urandom::seeded, from_rng via Mock, serde) x "
         "random op history over {u32,u64,f32,f64,fill:n,jump,clone,split} (length 0..60, fill lengths clustered at 0..17 and larger); "
         "SplitMix64 / Wyrand additionally from seeds computed backwards so that the state at a draw is a structured word (zero / all-ones 32-bit halves, single bits, the source's constants xor such words); "
